@@ -253,6 +253,30 @@ func (e *Env) eval(x *Expr) TV {
 	case "call":
 		return e.evalCall(x)
 	case "unary":
+		if x.Val == "*" {
+			// pointer dereference
+			base := e.eval(x.Args[0])
+			if base.T == nil {
+				if t, ok := base.V.(*Term); ok && isOptSort(t.Sort) {
+					return TV{OptVal(t), nil}
+				}
+				efail("dereference of an untyped value")
+			}
+			pt, ok := types.Unalias(base.T).Underlying().(*types.Pointer)
+			if !ok {
+				efail("dereference of a non-pointer")
+			}
+			switch pv := base.V.(type) {
+			case *PtrV:
+				return TV{e.ex.load(e.cur, pv), pt.Elem()}
+			case *Term:
+				if o, ok := e.cur.optObj[pv.id]; ok {
+					return TV{e.ex.content(e.cur, o), pt.Elem()}
+				}
+				return TV{OptVal(pv), pt.Elem()}
+			}
+			efail("dereference of an unsupported pointer value")
+		}
 		a := e.term(x.Args[0])
 		if x.Val == "!" {
 			return TV{Not(a), nil}
